@@ -139,6 +139,25 @@ func runIngester(worker, state string, capacity, fill int) wresult {
 	default:
 		panic("bad worker " + worker)
 	}
+	if state == "precancelled" {
+		// the context is already cancelled when the worker starts (a sibling failed during start-up)
+		cancel()
+		t0 := time.Now()
+		select {
+		case err := <-done:
+			r := wresult{returned: true, errNil: err == nil, blocked: true, elapsed: time.Since(t0)}
+			r.late = lateCount()
+			if f, err := os.OpenFile(path, os.O_WRONLY|syscallNonblock, 0); err == nil {
+				f.Close()
+			}
+			return r
+		case <-time.After(returnBound):
+			if f, err := os.OpenFile(path, os.O_WRONLY|syscallNonblock, 0); err == nil {
+				f.Close()
+			}
+			return wresult{blocked: true}
+		}
+	}
 	var w *os.File
 	if state != "opening" {
 		var err error
